@@ -647,3 +647,6 @@ PROPS["C19"]["claim"] += (" generated_SendCommand_isolation (Proofs/EndToEnd/Iso
 PROPS["C13"]["proofs"] = PROPS["C13"]["proofs"] + ["Bmc.Proofs.EndToEnd.ContextC13"]
 PROPS["C13"]["claim"] += (" About the retry loops AS TRANSLATED ON THIS RUN (Proofs/EndToEnd/ContextC13.lean; the part a function of states can say): at most one datagram per outcome the caller's context allows, "
                           "nothing after the context has ended in the back-off, and a call entered with an ended context serialises one packet, fails in the transport and returns without a retry.")
+PROPS["C01"]["proofs"] = PROPS["C01"]["proofs"] + ["Bmc.Proofs.EndToEnd.SessionC01"]
+PROPS["C01"]["claim"] += (" generated_SendCommand_answered (Proofs/EndToEnd/SessionC01.lean): on a session whose keys both sides hold, the one datagram SendCommand AS TRANSLATED ON THIS RUN sends for any "
+                          "well-posed command passes the conforming BMC's integrity check, decryption and message checks, and the translated code returns the BMC handler's completion code.")
